@@ -155,6 +155,8 @@ func inAgentBubble(r *Run, f func(w *AWorld)) {
 		w.ex = simexec.NewWorld()
 		w.ex.OnStart = func(p *simexec.Proc) { p.Step = int(w.stepA.Load()) }
 		simexec.Cur = w.ex
+		w.ex.Cwd = func() string { return simfs.Cur.Cwd }
+		w.ex.Exists = func(abs string) bool { _, err := simfs.Stat(abs); return err == nil }
 		simsignal.Reset()
 		w.sched = simrt.NewSched()
 		w.sched.OnPick = func(name, site string, picked int) {
